@@ -33,7 +33,11 @@ Definition rd_read (n : N) (s : rstate) : bytes * rstate :=
   match rs_err s with
   | Some _ => ([], s)
   | None =>
-      let '(b, r') := read_full N (S (measure N (rs_r s))) (N.to_nat n) (rs_r s) in
+      (* ask for n bytes; a length prefix may announce up to 2^64-1 of them, and the
+         loop ends at EOF anyway: "one more than there is" stands for every larger n
+         (keeps the unary count small under vm_compute) *)
+      let want := N.min n (lenN (flat N (rs_r s)) + 1) in
+      let '(b, r') := read_full N (S (measure N (rs_r s))) (N.to_nat want) (rs_r s) in
       if lenN b <? n then (b, mkRS r' (rs_cnt s + lenN b) (Some EEof) (rs_alloc s))
       else (b, mkRS r' (rs_cnt s + n) None (rs_alloc s))
   end.
@@ -155,17 +159,22 @@ Lemma sim_read n s :
 Proof.
   unfold rd_read, abs. destruct s as [r c e a]. cbn [rs_r rs_cnt rs_err rs_alloc].
   destruct e as [e|]; [reflexivity|].
-  pose proof (d_read_any_reader r (S (measure N r)) n c a (Nat.lt_succ_diag_r _)) as H.
-  destruct (read_full N (S (measure N r)) (N.to_nat n) r) as [b r'] eqn:E.
+  set (want := N.min n (lenN (flat N r) + 1)).
+  destruct (read_full N (S (measure N r)) (N.to_nat want) r) as [b r'] eqn:E.
   destruct (read_full_flat N _ _ _ _ _ (Nat.lt_succ_diag_r _) E) as [Hb Hr].
-  rewrite H. clear H.
-  assert (Hl : lenN b = N.min n (lenN (flat N r))).
-  { rewrite Hb. unfold lenN. rewrite firstn_length. lia. }
+  unfold d_read. cbn [err inp cnt alloc].
+  assert (Hlen : N.to_nat (lenN (flat N r)) = List.length (flat N r)) by apply lenN_nat.
   destruct (N.leb_spec n (lenN (flat N r))) as [L|L].
-  - assert (lenN b <? n = false) as -> by (apply N.ltb_ge; rewrite Hl; lia).
-    cbn [fst snd rs_r rs_cnt rs_err rs_alloc]. rewrite N.min_l by exact L. reflexivity.
-  - assert (lenN b <? n = true) as -> by (apply N.ltb_lt; rewrite Hl; lia).
-    cbn [fst snd rs_r rs_cnt rs_err rs_alloc]. rewrite Hl. reflexivity.
+  - assert (want = n) as W by (unfold want; lia). rewrite W in Hb, Hr.
+    assert (Hl : lenN b = n).
+    { rewrite Hb. unfold lenN. rewrite firstn_length. lia. }
+    assert (lenN b <? n = false) as -> by (apply N.ltb_ge; lia).
+    cbn [fst snd rs_r rs_cnt rs_err rs_alloc]. rewrite Hb, Hr. reflexivity.
+  - assert (W : want = lenN (flat N r) + 1) by (unfold want; lia). rewrite W in Hb, Hr.
+    assert (Hk : (List.length (flat N r) <= N.to_nat (lenN (flat N r) + 1))%nat) by lia.
+    rewrite firstn_all2 in Hb by exact Hk. rewrite skipn_all2 in Hr by exact Hk.
+    assert (lenN b <? n = true) as -> by (apply N.ltb_lt; rewrite Hb; lia).
+    cbn [fst snd rs_r rs_cnt rs_err rs_alloc]. rewrite Hb, Hr. reflexivity.
 Qed.
 
 Ltac sim_step L :=
